@@ -279,6 +279,17 @@ def rt_sigcmp(req):
         if type(r) is not S.UpgradedSignature or r.sources is not u.sources or \
                 r.upgraded_return_annotation is not u.upgraded_return_annotation:
             problems.append('replace(): type/provenance/upgraded return annotation not kept on %s' % u)
+        # replace() is a constructor: whatever is overridden, the receiver stays what it was and the result is another object
+        for kw_ in ({}, {'sources': {'+depths': {}}}, {'upgraded_return_annotation': S.EmptyAnnotation},
+                    {'sources': {'+depths': {}}, 'upgraded_return_annotation': S.EmptyAnnotation}):
+            u2 = core._mk_sig(d)
+            before = (dict(u2.sources), u2.upgraded_return_annotation, str(u2), hash(u2))
+            r = u2.replace(**kw_)
+            if r is u2:
+                problems.append('replace-returns-receiver: sig.replace(%s) is sig' % ', '.join(sorted(kw_)))
+            after = (dict(u2.sources), u2.upgraded_return_annotation, str(u2), hash(u2))
+            if before != after or u2 != core._mk_sig(d):
+                problems.append('replace-mutates-receiver: after sig.replace(%s) the receiver changed' % ', '.join(sorted(kw_)))
         r = u.replace(return_annotation=inspect.Signature.empty, upgraded_return_annotation=S.EmptyAnnotation)
         if r.upgraded_return_annotation is not S.EmptyAnnotation:
             problems.append('replace(upgraded_return_annotation=...) not honoured')
@@ -329,6 +340,38 @@ def rt_sigcmp(req):
                 if get(q) is not want and get(q) != want:
                     problems.append('replace-field: Signature.replace(%s=...) left .%s = %r, expected %r (on %s)' % (
                         kw_, f_, get(q), want, u))
+        # == implies equal hash (and a working dict lookup) also between a signature of a PEP 563 function and its evaluated() copy,
+        # and between copies whose raw annotation was replaced; == is reflexive even for a NaN default
+        if len(ps) <= 2 and all(q[1] in ('pk', 'ko') for q in ps):
+            gl = {}
+            names_ = [q[0] for q in ps]
+            src_ = 'from __future__ import annotations\ndef f(%s) -> int:\n    pass\n' % ', '.join(
+                ('*, ' if q[1] == 'ko' and (k_ == 0 or ps[k_ - 1][1] != 'ko') else '') + '%s: int' % q[0] for k_, q in enumerate(ps))
+            try:
+                exec(compile(src_, '<c14>', 'exec'), gl)
+            except SyntaxError:
+                gl = None
+            if gl:
+                su = sigtools.signature(gl['f'])
+                group = [su, su.evaluated(), sigtools.signature(gl['f'])]
+                for q in list(su.parameters.values()):
+                    group += [q, su.evaluated().parameters[q.name], q.replace(annotation=int), q.replace(annotation='int')]
+                for x in group:
+                    for y in group:
+                        try:
+                            e_, n_ = (x == y), (x != y)
+                        except Exception as ex:  # noqa
+                            problems.append('comparison-raises: %r == %r raised %s' % (x, y, type(ex).__name__))
+                            continue
+                        if e_ is not (not n_):
+                            problems.append('eq-ne: %r vs %r: == %r, != %r' % (x, y, e_, n_))
+                        if e_ and hash(x) != hash(y):
+                            problems.append('eq-hash: %r == %r (a signature / parameter of a PEP 563 function and a copy) but their hashes differ' % (x, y))
+            nan = float('nan')
+            pn = S.UpgradedParameter('a', inspect.Parameter.POSITIONAL_OR_KEYWORD, default=nan)
+            if not (pn == pn) or not (S.UpgradedSignature([pn], sources={'+depths': {}}) == S.UpgradedSignature([pn], sources={'+depths': {}})) \
+                    and (inspect.Signature([pn]) == inspect.Signature([pn])):
+                problems.append('eq-not-reflexive: a parameter with a NaN default does not equal itself (inspect compares identical objects equal)')
     return ('ok', tuple(problems[:3]))
 
 
@@ -754,6 +797,8 @@ def rt_modorder(req):
         steps.append(('kwoargs:' + w, modifiers.kwoargs(w)))
     if ann:
         steps.append(('annotate', modifiers.annotate(**{ann: 42})))
+    if (len(ps) + len(Wn)) % 2:
+        steps.append(('annotate-return', modifiers.annotate(99)))      # only a return annotation
     outcomes = {}
     problems = []
     # autokwoargs(exceptions=...) kept in a variable and applied to several copies of the function
@@ -814,6 +859,8 @@ def rt_modorder(req):
             problems.append('inspect-differs: %s vs %s after %s' % (sig, isig, orders[0]))
         if ann and (ann + ': 42') not in sig:
             problems.append('annotate-not-advertised: %s after %s lacks the annotation of %s' % (sig, orders[0], ann))
+        if any(x == 'annotate-return' for x in orders[0]) and not sig.endswith('-> 99'):
+            problems.append('annotate-not-advertised: %s after %s lacks the return annotation' % (sig, orders[0]))
     return ('ok', tuple(problems[:3]), len(outcomes))
 
 
@@ -919,19 +966,27 @@ def rt_wrap(req):
         lines += [deco, 'def deco%d(%s):' % (i, sig), '    ' + body]
         lines += ['def hand%d(%s):' % (i, sig), '    ' + body]
     fdef = core.def_source(fparams, name='f', body=ret).rstrip('\n').split('\n')
-    decos = ['@deco%d' % i for i in range(depth)]
+    # a wrapper without parameters of its own can be applied twice in a row: adjacent levels with no own parameters use
+    # the SAME decorator object (a logging / timing wrapper stacked on itself)
+    level_deco = []
+    for i in range(depth):
+        if i > 0 and own_list[i] == () and own_list[i - 1] == ():
+            level_deco.append(level_deco[-1])
+        else:
+            level_deco.append(i)
+    decos = ['@deco%d' % level_deco[i] for i in range(depth)]
     if placement == 'function_peek':
         # the stack is built one level at a time and every intermediate object is introspected before the next
         # decorator is applied (what interactive use, or a framework registering callbacks, does)
         lines += fdef
         lines += ['import inspect, sigtools as _st']
         for i in reversed(range(depth)):
-            lines += ['f = deco%d(f)' % i, '_st.signature(f); inspect.signature(f)']
+            lines += ['f = deco%d(f)' % level_deco[i], '_st.signature(f); inspect.signature(f)']
         lines += core.def_source(fparams, name='plain', body=ret).rstrip('\n').split('\n')
         lines += ['target = f']
         hand = 'plain'
         for i in reversed(range(depth)):
-            hand = 'functools.partial(hand%d, %s)' % (i, hand)
+            hand = 'functools.partial(hand%d, %s)' % (level_deco[i], hand)
         lines += ['hand = ' + hand]
     elif placement == 'function_forged':
         # the decorated function carries a declared forger of its own (forwards_to_function sets _sigtools__forger on it):
@@ -942,7 +997,7 @@ def rt_wrap(req):
         lines += ['target = f']
         hand = 'plain'
         for i in reversed(range(depth)):
-            hand = 'functools.partial(hand%d, %s)' % (i, hand)
+            hand = 'functools.partial(hand%d, %s)' % (level_deco[i], hand)
         lines += ['hand = ' + hand]
     elif placement == 'function':
         lines += decos + fdef
@@ -950,7 +1005,7 @@ def rt_wrap(req):
         lines += ['target = f']
         hand = 'plain'
         for i in reversed(range(depth)):
-            hand = 'functools.partial(hand%d, %s)' % (i, hand)
+            hand = 'functools.partial(hand%d, %s)' % (level_deco[i], hand)
         lines += ['hand = ' + hand]
     else:
         lines += ['class C(object):']
@@ -961,7 +1016,7 @@ def rt_wrap(req):
         lines += ['inst = C()', 'target = inst.f']
         hand = ('inst.plain' if placement == 'method' else 'C.__dict__["plain"]')
         for i in reversed(range(depth)):
-            hand = 'functools.partial(hand%d, %s)' % (i, hand)
+            hand = 'functools.partial(hand%d, %s)' % (level_deco[i], hand)
         lines += ['hand = ' + hand]
     src = '\n'.join(lines) + '\n'
     problems = []
@@ -1016,7 +1071,7 @@ def rt_wrap(req):
         else:
             for i, w in enumerate(ws):
                 nm = getattr(w, '__name__', None)
-                if nm != 'deco%d' % i:
+                if nm != 'deco%d' % level_deco[i]:
                     problems.append('wrappers-order: wrappers() position %d is %r\n%s' % (i, w, src))
                     break
         if placement == 'method':
@@ -1364,7 +1419,7 @@ def _preempt_scenarios():
         'emulated_new': (lambda: {'cls': _make_emulated_new()}, both(lambda st: st['cls']), None),
     }
     for n in ('as_forged', 'decorated_fn', 'wdecorated_fn', 'declared_emulated', 'method_decorated', 'method_pok', 'pok_fn',
-              'user_forged', 'method_fwd', 'instance_signature'):
+              'user_forged', 'method_fwd', 'instance_signature', 'plain_wrapper', 'method_auto', 'partial', 'declared'):
         sc[n] = ((lambda n=n: {'o': scenarios.make()[n]}), both(lambda st: st['o']), None)
     # functools.wraps functions: their answers are subject to the delete/restore window (finding D6)
     for n in ('wrapped_fn', 'wrapped_twice'):
@@ -1374,7 +1429,8 @@ def _preempt_scenarios():
 
 PREEMPT_SCENARIOS = ('pok_method_kwo', 'pok_method_pos', 'pok_method_auto', 'emulated_class_getitem', 'emulated_new', 'as_forged',
                      'decorated_fn', 'wdecorated_fn', 'declared_emulated', 'method_decorated', 'method_pok', 'pok_fn', 'user_forged',
-                     'method_fwd', 'instance_signature', 'wrapped_fn', 'wrapped_twice')
+                     'method_fwd', 'instance_signature', 'plain_wrapper', 'method_auto', 'partial', 'declared', 'wrapped_fn',
+                     'wrapped_twice')
 
 
 def rt_preempt(req):
@@ -1568,3 +1624,93 @@ def rt_class_annotations(req):
 
 
 RT['class_annotations'] = rt_class_annotations
+
+
+# ----------------------------------------------------------------------------- C18: re-decoration after use
+def _redeco_class(scenario):
+    if scenario == 'pos_self_a':
+        class C(object):
+            @modifiers.posoargs('self', 'a')
+            def m(self, a, b=2):
+                return (a, b)
+    elif scenario == 'pos_self':
+        class C(object):
+            @modifiers.posoargs('self')
+            def m(self, a, b=2):
+                return (a, b)
+    elif scenario == 'kwo_b':
+        class C(object):
+            @modifiers.kwoargs('b')
+            def m(self, a, b=2):
+                return (a, b)
+    elif scenario == 'kwo_over_end':
+        class C(object):
+            @modifiers.kwoargs('c')
+            @modifiers.posoargs(end='a')
+            def m(self, a, b=2, c=3):
+                return (a, b, c)
+    else:
+        class C(object):
+            @modifiers.autokwoargs
+            def m(self, a, b=2):
+                return (a, b)
+    return C
+
+
+def _redeco_outcome(C, redeco):
+    """re-decorate the class attribute, then: signatures through class and instance, and a few real calls"""
+    try:
+        with warnings.catch_warnings():
+            warnings.simplefilter('ignore')
+            cur = C.__dict__['m']
+            if redeco == 'annotate':
+                C.m = modifiers.annotate(b=int)(cur)
+            elif redeco == 'annotate_ret':
+                C.m = modifiers.annotate(99)(cur)
+            elif redeco == 'kwoargs':
+                C.m = modifiers.kwoargs('b')(cur)
+            inst = C()
+            out = [str(sigtools.signature(inst.m)), str(inspect.signature(inst.m)), str(sigtools.signature(C.__dict__['m']))]
+            for a, k in (((1,), {}), ((1, 5), {}), ((1,), {'b': 5}), ((), {'a': 1}), ((1, 5, 6), {}), ((), {})):
+                try:
+                    out.append(repr(inst.m(*a, **k)))
+                except TypeError:
+                    out.append('TypeError')
+                except RecursionError:
+                    out.append('RecursionError')
+    except ValueError as e:
+        return ('ValueError', str(e)[:60])
+    return tuple(out)
+
+
+def rt_redecorate(req):
+    """histories of {retrieve, bind on instance 1 / 2, call} followed by a re-decoration give what the re-decoration gives on a
+    class nobody has touched yet"""
+    _, scenario, history, redeco = req
+    want = _redeco_outcome(_redeco_class(scenario), redeco)
+    C = _redeco_class(scenario)
+    insts = [C(), C()]
+    held = []
+    with warnings.catch_warnings():
+        warnings.simplefilter('ignore')
+        for op in history:
+            try:
+                if op == 'sig':
+                    sigtools.signature(C.__dict__['m']); inspect.signature(C.m)
+                elif op in ('bind1', 'bind2'):
+                    held.append(getattr(insts[int(op[-1]) - 1], 'm'))
+                elif op == 'call':
+                    insts[0].m(1)
+                elif op == 'sigb':
+                    sigtools.signature(insts[0].m)
+            except Exception as e:  # noqa
+                return ('ok', ('history-raises: %s during history %s of scenario %s raised %s' % (op, history, scenario, type(e).__name__),), 'raised')
+    got = _redeco_outcome(C, redeco)
+    problems = []
+    if got != want:
+        problems.append('history-dependent: scenario %s, after the history %s the re-decoration %r gives %s; on an untouched class it gives %s' % (
+            scenario, list(history), redeco, got[:3], want[:3]))
+    return ('ok', tuple(problems), 'redecorate')
+
+
+RT['redecorate'] = rt_redecorate
